@@ -5,7 +5,7 @@ import ast
 from .. import astutil as A
 from ..callgraph import callgraph
 from ..cfg import cfg_of, within
-from ..dataflow import derives, local_defs, reaching
+from ..dataflow import derives, derives_must, local_defs, reaching
 from .c07 import popped_keys, STRUCTURAL
 
 EXPL = (
@@ -37,6 +37,8 @@ def check(ck):
     r09_5(ck)
     r09_6(ck)
     r09_7(ck)
+    r09_9(ck)
+    r09_10(ck)
 
 
 def _stmt(x):
@@ -143,8 +145,8 @@ def r09_2_8(ck):
                 k_ok = derives(f.node, k, lambda x: isinstance(
                     x, ast.Subscript) and A.is_name(x.value, added) and
                     A.subscript_key(x) == 'key', at=r)
-                c_ok = derives(f.node, cont, lambda x: A.unparse(x) ==
-                               'self.inner', at=r)
+                c_ok = derives_must(f.node, cont, lambda x: A.unparse(x) ==
+                                    'self.inner', at=r)
                 if k_ok and c_ok:
                     ok = True
                     guard_test = _stmt(cond)
@@ -474,3 +476,88 @@ def r09_7(ck):
                        'its outer: path_for()/top() of the subtree break'
                        % (ot, ot), s)
     ck.floor('R09.7', n, 7, 'attach sites')
+
+
+def r09_9(ck):
+    ck.rule('R09.9', 'every listed operation is carried out: the loops over '
+            'the entries of _add, _move, _generate and _delete have no '
+            'break/return and reach the operation in every iteration (an '
+            'absent key may be skipped with continue)')
+    f = ck.fn('Store.apply_update', 'core.store')
+    cfg = cfg_of(f.node)
+    upd = A.params_of(f.node)[1]
+    popped = popped_keys(f.node, upd)
+    n = 0
+    for key, meth in sorted(STRUCTURAL.items()):
+        if key == '_divide' or key not in popped:
+            continue
+        var = popped[key][0]
+        loops = [l for l in A.walk_no_nested(f.node)
+                 if isinstance(l, ast.For) and A.is_name(l.iter, var)]
+        ck.require(len(loops) == 1, 'R09.9', f, "loop over '%s' entries"
+                   % key, "the entries of '%s' are visited in one loop "
+                   'over the list itself' % key,
+                   "the '%s' list is not iterated as given (%d loops over "
+                   'it)' % (key, len(loops)))
+        for lp in loops:
+            n += 1
+            body = cfg.loop_nodes(lp)
+            hdr = cfg.loops[id(lp)]['header']
+            entry = cfg.loops[id(lp)]['body_entry']
+            ops = {cfg.node(c) for c in A.calls_in(lp, meth)
+                   if A.is_name(A.call_receiver(c), 'self')}
+            brk = cfg.loops[id(lp)]['breaks']
+            rets = [x for x in body
+                    if isinstance(cfg.info[x]['stmt'], ast.Return)]
+            ck.require(not brk and not rets, 'R09.9', f, lp,
+                       "no break/return in the loop over '%s' entries" % key,
+                       "a break/return in the loop over the '%s' entries "
+                       'drops the remaining operations of the update' % key,
+                       lp)
+            # continue is allowed only for keys that are not children
+            skips = set()
+            for x in body:
+                st = cfg.info[x]['stmt']
+                if isinstance(st, ast.Continue):
+                    g = cfg.guards(x) - cfg.guards(entry)
+                    if g and all(a[0] == 'notin' and a[2] == 'self.inner'
+                                 for a in g) and key == '_delete':
+                        skips.add(x)
+            ok = bool(ops) and cfg.must_pass(entry, hdr, ops | skips,
+                                             within=body | {hdr})
+            ck.require(ok, 'R09.9', f, lp,
+                       'every entry reaches self.%s(...)' % meth,
+                       "an entry of '%s' can be skipped without being "
+                       'carried out' % key, lp)
+    ck.floor('R09.9', n, 4, 'loops over structural entries')
+
+
+def r09_10(ck):
+    ck.rule('R09.10', "divide uses exactly what a daughter lists: the "
+            "mother's processes / topology are inherited only when the "
+            "daughter specification has no 'processes' / 'topology' key")
+    f = ck.fn('Store.divide', 'core.store')
+    cfg = cfg_of(f.node)
+    n = 0
+    for getter, key, also in (('get_processes', "'processes'", "'steps'"),
+                              ('get_topology', "'topology'", None)):
+        for c in A.calls_in(f.node, getter):
+            n += 1
+            g = cfg.guards(cfg.node(c))
+            ok = any(a[0] == 'notin' and a[1] == key for a in g)
+            ck.require(ok, 'R09.10', f, c,
+                       "the mother's %s are inherited only when the "
+                       'daughter lists none' % getter[4:],
+                       "a daughter that lists %s can still receive copies "
+                       "of the mother's: the division does not produce "
+                       'exactly the listed daughters' % key, c)
+        # the explicit branch reads the daughter's own entry
+        used = [s for s in A.walk_no_nested(f.node)
+                if isinstance(s, ast.Assign) and isinstance(
+                    s.value, ast.Subscript) and A.unparse(
+                    s.value.slice) == key]
+        ck.require(bool(used), 'R09.10', f, key,
+                   "the daughter's own %s entry is used when present" % key,
+                   "the %s entry of a daughter specification is never "
+                   'read' % key)
+    ck.floor('R09.10', n, 2, 'inheritance sites')
